@@ -93,9 +93,26 @@ func c09Collision(r *Rng, forced int) c09WS {
 		case 2:
 			return c09CrossFileMembers(r)
 		}
-		forced = r.Intn(6)
+		forced = r.Intn(7)
 	}
-	switch forced % 6 {
+	switch forced % 7 {
+	case 6: // a configuration file with name lists (ignored unused locals, ignored modules) and scopes that mix listed and unlisted names
+		var sb strings.Builder
+		sb.WriteString("local function work(p)\n")
+		names := []string{"ignoredLocal", "skipMe"}
+		for k := 0; k < r.Range(4, 9); k++ {
+			names = append(names, fmt.Sprintf("a%d", k))
+		}
+		for _, k := range r.Perm(len(names)) {
+			if r.Bool() {
+				fmt.Fprintf(&sb, "  local %s = %d\n", names[k], k)
+			} else {
+				fmt.Fprintf(&sb, "  local %s\n  %s = p\n", names[k], names[k])
+			}
+		}
+		sb.WriteString("  return p\nend\nprint(work(1), gFramework, Engine.run, notDefinedAnywhere)\n")
+		return c09WS{"config-file-name-lists", map[string]string{"main.lua": sb.String(), "other.lua": "local ignoredLocal, b1, b2 = 1, 2, 3\nprint(gFramework)\n",
+			"luahelper.json": `{"IgnoreLocalNoUseVars":["ignoredLocal","skipMe"],"IgnoreModules":["gFramework","Engine"]}`}}
 	case 5: // tables and classes with more members than a hover / completion preview shows (the preview is cut to a fixed number)
 		var sb strings.Builder
 		n := r.Range(31, 60)
@@ -347,7 +364,7 @@ func runC09(c *Ctx) {
 	}
 	for i := 0; i < nColl; i++ {
 		forced := -1
-		if i < 18 {
+		if i < 21 {
 			forced = i // three of each hand-written kind first
 		}
 		wss = append(wss, c09Collision(root.Fork(uint64(100000+i)), forced))
